@@ -216,6 +216,27 @@ pub fn gen_libpar(r: &mut Rng, idx: usize) -> LibCase {
     let files: Vec<String> = order.iter().map(|i| files[*i].clone()).collect();
     let kinds: Vec<&str> = order.iter().map(|i| kinds[*i]).collect();
 
+    // sometimes a custom partitioner (`with_partitioner`): only the files it matches are run
+    let part: Option<(u64, u64)> = if r.chance(1, 3) {
+        let count = r.range(2, 4) as u64;
+        Some((count, r.below(count as usize) as u64))
+    } else {
+        None
+    };
+    fn name_hash(name: &str) -> u64 {
+        name.bytes().fold(0xcbf29ce484222325u64, |h, b| (h ^ b as u64).wrapping_mul(0x100000001b3))
+    }
+    let selected: Vec<bool> = files
+        .iter()
+        .map(|f| match part {
+            Some((count, id)) => name_hash(f) % count == id,
+            None => true,
+        })
+        .collect();
+    let all_files = files.clone();
+    let all_kinds = kinds.clone();
+    let files: Vec<String> = all_files.iter().zip(&selected).filter(|(_, s)| **s).map(|(f, _)| f.clone()).collect();
+    let kinds: Vec<&str> = all_kinds.iter().zip(&selected).filter(|(_, s)| **s).map(|(k, _)| *k).collect();
     let yield_seed = r.next();
     let max_yield = *r.pick(&[0usize, 1, 3, 8]);
     LOG.with(|l| l.borrow_mut().clear());
@@ -228,6 +249,9 @@ pub fn gen_libpar(r: &mut Rng, idx: usize) -> LibCase {
     let res = std::panic::catch_unwind(std::panic::AssertUnwindSafe(|| {
         rt.block_on(async {
             let mut parent = Runner::new(|| async { Ok::<_, LogErr>(LogDb::new(MGMT.to_string())) });
+            if let Some((count, id)) = part {
+                parent.with_partitioner(move |name: &str| name_hash(name) % count == id);
+            }
             let res = parent.run_parallel_async(&glob, vec!["h".into()], lib_builder, jobs).await;
             parent.shutdown_async().await;
             res.is_ok()
@@ -329,14 +353,27 @@ pub fn gen_libpar(r: &mut Rng, idx: usize) -> LibCase {
         }
     }
     if oracle.is_none() && ncreate != files.len() {
-        oracle = Some(format!("{} databases were created for {} files", ncreate, files.len()));
+        oracle = Some(format!(
+            "{} databases were created for {} files{}",
+            ncreate,
+            files.len(),
+            match part {
+                Some((c, i)) => format!(" selected by the partitioner {}/{} out of {}", i, c, all_files.len()),
+                None => String::new(),
+            }
+        ));
     }
     let created: Vec<String> = events
         .iter()
         .filter_map(|e| if let Ev::Create(d) = e { Some(d.clone()) } else { None })
         .collect();
     let names = if created.len() == files.len() {
-        files.iter().enumerate().map(|(k, f)| (f.clone(), k, created[k].clone())).collect()
+        // the index in the name is the file's position in the glob, selected or not
+        files
+            .iter()
+            .enumerate()
+            .map(|(j, f)| (f.clone(), all_files.iter().position(|x| x == f).unwrap_or(j), created[j].clone()))
+            .collect()
     } else {
         vec![]
     };
@@ -344,8 +381,9 @@ pub fn gen_libpar(r: &mut Rng, idx: usize) -> LibCase {
         names,
         line,
         tag: format!(
-            "c17lib jobs={} max_yield={} yield_seed={} files={:?} kinds={:?}",
+            "c17lib jobs={} part={:?} max_yield={} yield_seed={} files={:?} kinds={:?}",
             jobs,
+            part,
             max_yield,
             yield_seed,
             files.iter().map(|f| f.rsplit('/').next().unwrap_or("")).collect::<Vec<_>>(),
